@@ -48,7 +48,7 @@ def read_nwi_laser_log(log_path: Path | str) -> np.ndarray:
             ("y", float),
             ("state", "U3"),
             ("rate", int),
-            ("spotsize", "U16"),
+            ("spotsize", "U32"),
         ],
     )
     fill_ints(log["sequence"])
